@@ -171,7 +171,8 @@ def prove(prop, gen_modules, dyn_files, static_deps=()):
         res.ok = False
         res.failed.append(('axioms', 'assumptions outside the allowed list: ' + ', '.join(sorted(extra))))
     for p in static_deps:
-        res.static_lemmas += count_lemmas(os.path.join(COQ, p))
+        if os.path.exists(os.path.join(COQ, p)):
+            res.static_lemmas += count_lemmas(os.path.join(COQ, p))
     return res
 
 
